@@ -591,7 +591,19 @@ impl KEnv {
     pub fn k_flush_table<B: Table>(&self, t: &B, start: u32, size: usize) -> KResult<()> {
         self.rec(Rec { kind: K_BACKEND_WRITE, off: t.get_offset().unwrap() + start as u64, len: size,
                        buf_start: start as usize, ..NOREC });
+        if self.fail_write.get() {
+            return Err(KErr);
+        }
         Ok(())
+    }
+    pub fn k_flush_table_q<B: Table>(&self, t: &B, start: u32, size: usize) -> Qcow2Result<()> {
+        Ok(self.k_flush_table(t, start, size)?)
+    }
+    pub fn k_flush_cache_q(&self, start: usize, end: usize) -> Qcow2Result<bool> {
+        Ok(self.k_flush_cache(start, end)?)
+    }
+    pub fn k_call_fsync_q(&self, off: u64, len: usize, flags: u32) -> Qcow2Result<()> {
+        Ok(self.k_call_fsync(off, len, flags)?)
     }
     /// flush_cache(cache, start, end): flush the dirty slices with start <= key < end
     pub fn k_flush_cache(&self, start: usize, end: usize) -> KResult<bool> {
